@@ -53,13 +53,14 @@ type Config struct {
 }
 
 type Stats struct {
-	Files       int
-	GoStmts     int
-	ChanOps     int
-	Selects     int
-	ImportSwaps int
-	Accesses    int
-	MapRanges   int
+	Files         int
+	GoStmts       int
+	ChanOps       int
+	Selects       int
+	ImportSwaps   int
+	Accesses      int
+	MapRanges     int
+	MapRangesLeft int // map ranges that could not be determinised
 }
 
 type Error struct{ Msg string }
@@ -190,6 +191,7 @@ type rewriter struct {
 	needUnsafe bool
 	skip       map[ast.Node]bool // comm-clause statements handled by the select rewrite
 	tmpN       int
+	captured   map[*types.Var]bool
 	err        error
 }
 
@@ -352,7 +354,12 @@ func (r *rewriter) rewriteFile() error {
 			if r.isChan(n.X) {
 				c.Replace(r.rewriteRangeChan(n))
 			} else if r.isMapWithOrderedKey(n.X) {
-				r.st.MapRanges++
+				if rep := r.rewriteRangeMap(n); rep != nil {
+					r.st.MapRanges++
+					c.Replace(rep)
+				} else {
+					r.st.MapRangesLeft++
+				}
 			}
 		case *ast.SelectStmt:
 			r.st.Selects++
@@ -418,6 +425,64 @@ func (r *rewriter) isMapWithOrderedKey(e ast.Expr) bool {
 	}
 	_, ok := t.Underlying().(*types.Map)
 	return ok
+}
+
+// for k, v := range m { body }   (m a map with an ordered key type)
+//
+//	=>
+//
+// for _, k := range core.RangeKeys(m) { v, ok := m[k]; if !ok { continue }; body }
+func (r *rewriter) rewriteRangeMap(n *ast.RangeStmt) ast.Stmt {
+	mt := r.typeOf(n.X).Underlying().(*types.Map)
+	b, ok := mt.Key().Underlying().(*types.Basic)
+	if !ok || b.Info()&(types.IsOrdered) == 0 {
+		return nil
+	}
+	switch ast.Unparen(n.X).(type) {
+	case *ast.Ident, *ast.SelectorExpr:
+	default:
+		return nil // the map expression would be evaluated more than once
+	}
+	key := n.Key
+	var pre []ast.Stmt
+	kid := r.tmp("k")
+	var keyExpr ast.Expr = kid
+	if id, ok := key.(*ast.Ident); ok && id.Name != "_" && n.Tok == token.DEFINE {
+		keyExpr = ast.NewIdent(id.Name)
+		kid = ast.NewIdent(id.Name)
+	} else if key != nil && n.Tok == token.ASSIGN {
+		if id, ok := key.(*ast.Ident); !ok || id.Name != "_" {
+			pre = append(pre, &ast.AssignStmt{Lhs: []ast.Expr{key}, Tok: token.ASSIGN, Rhs: []ast.Expr{ast.NewIdent(kid.Name)}})
+		}
+	}
+	okid := r.tmp("ok")
+	var val ast.Expr = ast.NewIdent("_")
+	tok := token.DEFINE
+	if n.Value != nil {
+		if id, isID := n.Value.(*ast.Ident); !isID || id.Name != "_" {
+			val = n.Value
+			if n.Tok == token.ASSIGN {
+				pre = append(pre, &ast.DeclStmt{Decl: &ast.GenDecl{Tok: token.VAR, Specs: []ast.Spec{&ast.ValueSpec{Names: []*ast.Ident{ast.NewIdent(okid.Name)}, Type: ast.NewIdent("bool")}}}})
+				tok = token.ASSIGN
+			}
+		}
+	}
+	look := &ast.AssignStmt{Lhs: []ast.Expr{val, ast.NewIdent(okid.Name)}, Tok: tok, Rhs: []ast.Expr{&ast.IndexExpr{X: n.X, Index: keyExpr}}}
+	skip := &ast.IfStmt{Cond: &ast.UnaryExpr{Op: token.NOT, X: ast.NewIdent(okid.Name)}, Body: &ast.BlockStmt{List: []ast.Stmt{&ast.BranchStmt{Tok: token.CONTINUE}}}}
+	body := append(pre, look, skip)
+	if v, isID := val.(*ast.Ident); isID && v.Name != "_" && tok == token.DEFINE {
+		body = append(body, &ast.AssignStmt{Lhs: []ast.Expr{ast.NewIdent("_")}, Tok: token.ASSIGN, Rhs: []ast.Expr{ast.NewIdent(v.Name)}})
+	}
+	body = append(body, n.Body.List...)
+	return &ast.RangeStmt{Key: ast.NewIdent("_"), Value: kid, Tok: token.DEFINE, X: r.call("RangeKeys", cloneExprAny(n.X)), Body: &ast.BlockStmt{List: body}}
+}
+
+func cloneExprAny(e ast.Expr) ast.Expr {
+	switch e.(type) {
+	case *ast.Ident, *ast.SelectorExpr, *ast.ParenExpr:
+		return cloneExpr(e)
+	}
+	return e
 }
 
 // go f(a, b)  =>  { t0, t1 := a, b; core.Go("f", func() { f(t0, t1) }) }
